@@ -13,7 +13,7 @@ use serde_json::json;
 use std::iter::{Product, Sum};
 use std::ops::{Add, Div, Mul, Neg, Sub};
 
-pub const NFAM: u8 = 15;
+pub const NFAM: u8 = 16;
 
 #[derive(Clone, Debug, Serialize, Deserialize)]
 pub struct Case {
@@ -71,6 +71,59 @@ macro_rules! expect_same {
             };
         }
     };
+}
+
+/// family 15: `from_inner` lifts a value of the inner number type to a constant of the outer type: the
+/// real block is the inner value with all of its parts, every other part is zero; `re()` is the
+/// innermost real part
+struct VInner<'a> {
+    case: &'a Case,
+    st: &'a mut Stats,
+}
+impl<'a> crate::registry::TyVisitorInner for VInner<'a> {
+    type Out = Verdict;
+    fn visit<T>(self, dims: &[usize]) -> Verdict
+    where
+        T: Ty + DualNum<<T as Ty>::F>,
+        <T as DualNum<<T as Ty>::F>>::Inner: Ty<F = <T as Ty>::F>,
+    {
+        let case = self.case;
+        let lay = T::layout(dims);
+        let ilay = <<T as DualNum<T::F>>::Inner as Ty>::layout(dims);
+        let fi = make_flat::<T::F>(&ilay, case.ra, &case.a, &case.pres_a, &case.zero);
+        let inner = <<T as DualNum<T::F>>::Inner as Ty>::from_flat(dims, &fi);
+        let x = T::from_inner(inner);
+        let fx = x.to_flat(dims);
+        for (i, s) in lay.slots.iter().enumerate() {
+            let want = if s.name == "re" {
+                fi.vals[0]
+            } else if let Some(suffix) = s.name.strip_prefix("re.") {
+                match ilay.slots.iter().position(|t| t.name == suffix) {
+                    Some(k) => {
+                        if ilay.slot_present(k, &fi.pres) {
+                            fi.vals[k]
+                        } else {
+                            0.0
+                        }
+                    }
+                    None => return Verdict::Fail { sig: "HARNESS-BUG/from_inner-layout".into(), why: format!("no inner slot {suffix} for {}", T::tname(dims)) },
+                }
+            } else {
+                0.0
+            };
+            if !same(fx.vals[i], want) {
+                return Verdict::Fail {
+                    sig: "C08/from_inner".into(),
+                    why: format!("{}::from_inner({}) has part {} = {:e}, expected {:e} (the inner value as real part, all other parts zero)", T::tname(dims), flat_json(&ilay, &fi), s.name, fx.vals[i], want),
+                };
+            }
+        }
+        if x.re().to64() != fi.vals[0] {
+            return Verdict::Fail { sig: "C08/from_inner/re".into(), why: format!("{}::from_inner(..).re() = {:e}, expected {:e}", T::tname(dims), x.re().to64(), fi.vals[0]) };
+        }
+        self.st.class("from_inner");
+        Verdict::Pass { nontrivial: T::levels() > 1 && nonzero_parts(&ilay, &fi, 1) >= 1 }
+    }
 }
 
 impl<'a> TyVisitorRef for V<'a> {
@@ -254,8 +307,10 @@ impl<'a> TyVisitorRef for V<'a> {
                 expect_same!(dims, lay, base, i, 0.0, "inv", "inv()", ctx());
             }
             10 | 11 => {
-                let n = (case.len % 5) as usize;
-                let items: Vec<T> = [a.clone(), b.clone(), c.clone(), a.clone() * sf(0.5), b.clone() + sf(1.0)].into_iter().take(n).collect();
+                // iterator lengths 0..=9 (the five base items, then variations of them)
+                let n = (case.len % 10) as usize;
+                let base_items = [a.clone(), b.clone(), c.clone(), a.clone() * sf(0.5), b.clone() + sf(1.0)];
+                let items: Vec<T> = (0..n).map(|i| if i < 5 { base_items[i].clone() } else { base_items[i - 5].clone() * sf(1.25) - sf(0.25 * i as f64) }).collect();
                 if fam == 10 {
                     let base = items.iter().cloned().fold(T::zero(), |acc, x| acc + x);
                     let owned: T = items.iter().cloned().sum();
@@ -407,6 +462,9 @@ impl Property for C08 {
             return Verdict::Trivial("malformed case");
         }
         let dims = [case.dims.0 as usize % 7, case.dims.1 as usize % 7];
+        if case.fam % NFAM == 15 {
+            return crate::registry::dispatch_inner(case.ty, &dims, VInner { case, st });
+        }
         dispatch_ref(case.ty, &dims, V { case, st })
     }
     fn cases(tier: Tier) -> u64 {
@@ -416,7 +474,7 @@ impl Property for C08 {
         }
     }
     fn rule() -> String {
-        "generated: (type from the 58-type registry, one of 15 form families, operands with arbitrary parts and presence patterns, scalar incl. 0 and +-1, primitive integer incl. extreme i64, iterator length 0..4). Families: a op b vs &a op &b, a op &b, &a op b, a op= b for + - * / (bit-for-bit, and the base form against the reference algebra); -a vs -&a vs 0-a; a op s and a op= s vs a op D::from(s) (additive exact, multiplicative to 16 u per part; one multiplicative-scalar case in three uses a wide-magnitude scalar +-10^e, |e| <= 290 (f32: 30), where every part of the result must be the correctly rounded part*s resp. part/s and the lifted form is compared while 1/s^(order+1) is representable); inv vs recip; Sum / Product over owned and borrowed iterators (incl. empty) vs folds; default mul_add vs a*b+c; From<F> and the 14 FromPrimitive constructors vs the lifted float (constant with zero parts, None exactly when the float conversion is None); Zero, One and the 16 FloatConst constants have the float constant's bits and zero parts. Non-trivial: operands with >= 2 non-zero derivative parts, scalar not in {0,+-1}, iterator length >= 2.".into()
+        "generated: (type from the 58-type registry, one of 16 form families, operands with arbitrary parts and presence patterns, scalar incl. 0 and +-1, primitive integer incl. extreme i64, iterator length 0..9). Families: a op b vs &a op &b, a op &b, &a op b, a op= b for + - * / (bit-for-bit, and the base form against the reference algebra); -a vs -&a vs 0-a; a op s and a op= s vs a op D::from(s) (additive exact, multiplicative to 16 u per part; one multiplicative-scalar case in three uses a wide-magnitude scalar +-10^e, |e| <= 290 (f32: 30), where every part of the result must be the correctly rounded part*s resp. part/s and the lifted form is compared while 1/s^(order+1) is representable); inv vs recip; Sum / Product over owned and borrowed iterators (incl. empty) vs folds; default mul_add vs a*b+c; From<F> and the 14 FromPrimitive constructors vs the lifted float (constant with zero parts, None exactly when the float conversion is None); Zero, One and the 16 FloatConst constants have the float constant's bits and zero parts; from_inner lifts an arbitrary value of the inner number type (nested types: a dual number with its own parts) to a constant whose real block is that value and whose other parts are zero. Non-trivial: operands with >= 2 non-zero derivative parts, scalar not in {0,+-1}, iterator length >= 2.".into()
     }
     fn assumptions() -> Vec<String> {
         vec!["numerical equality (== on every part, NaN = NaN); presence patterns of the results are not compared (that is C07)".into()]
